@@ -25,7 +25,7 @@ package server
 // Thread-local mode: the loop talks to other goroutines through channels; only this per-iteration protocol
 // obligation is claimed, nothing about the heap.
 //@ func (*fsmHandler).recvMessageloop
-//@   tag C06 C14 C08
+//@   tag C06 C14 C08 C07
 //@   claims at-call
 //@   at-call table.UpdatePathAttrs4ByteAs( requires handling == bgp.ERROR_HANDLING_NONE || handling == bgp.ERROR_HANDLING_ATTRIBUTE_DISCARD ==> called(ValidateUpdateMsg)
 // ... and "the strongest reaction any of its errors calls for" also when decoding already asked for
@@ -36,6 +36,10 @@ package server
 // only for a peer that speaks 2-octet AS numbers; from a 4-octet speaker the two attributes are discarded
 // (RFC 6793 6), not merged into what it sent
 //@   at-call table.UpdatePathAttrs4ByteAs( requires h.fsm.twoByteAsTrans
+// from C07 "every ... unexpected ... message ... yields the NOTIFICATION code/subcode and next state the RFCs prescribe":
+// an OPEN arriving in Established is an FSM error (RFC 4271 8.2.2 event 19, RFC 6608 4) - it is never passed on to
+// the server like a routing message
+//@   at-call h.callback(fmsg) requires m.Header.Type != bgp.BGP_MSG_OPEN
 //@   at-call table.DiscardAs4Attrs( requires !h.fsm.twoByteAsTrans
 //@   at-call table.DiscardAs4Attrs( requires handling == bgp.ERROR_HANDLING_NONE || handling == bgp.ERROR_HANDLING_ATTRIBUTE_DISCARD ==> called(ValidateUpdateMsg)
 
